@@ -300,8 +300,31 @@ class CFG:
         if isinstance(st, ast.Try) or st.__class__.__name__ == 'TryStar':
             return self._try(st, preds, ctx)
         if isinstance(st, ast.Match):
-            raise AnalysisError('unsupported statement match at %s' %
-                                self.func.where(st))
+            # subject evaluated once, then the cases in order; a pattern
+            # (with its guard) is an opaque test that matches or not
+            subj = self._new('stmt', st)
+            self.stmt_node.setdefault(id(st), subj.id)
+            self._link(preds, subj.id)
+            if may_raise(st.subject):
+                self._edge(subj.id, ctx.exc, 'exc')
+            cur = [subj.id]
+            outs = []
+            for case in st.cases:
+                tn = self._new('test', case.pattern)
+                self._link(cur, tn.id)
+                tb = self._new('true', case.pattern, test=tn.id)
+                fb = self._new('false', case.pattern, test=tn.id)
+                self._edge(tn.id, tb.id)
+                self._edge(tn.id, fb.id)
+                t_out, f_out = [tb.id], [fb.id]
+                if case.guard is not None:
+                    t_out, gf = self._cond(case.guard, [tb.id], ctx)
+                    f_out = f_out + gf
+                outs += self._seq(case.body, t_out, ctx)
+                irrefutable = isinstance(case.pattern, ast.MatchAs) and \
+                    case.pattern.pattern is None and case.guard is None
+                cur = [] if irrefutable else f_out
+            return outs + cur
         return self._simple(st, preds, ctx)
 
     def _try(self, st, preds, ctx):
